@@ -67,6 +67,7 @@ const (
 	ScopeCommentQuote      = "html-comment-quote"
 	ScopeImportMap         = "script-type-importmap"
 	ScopeTypedMacroTag     = "typed-macro-tag"
+	ScopeRawTextTagQuote   = "rawtext-tag-quote"
 )
 
 // Gen generates documents.
@@ -512,7 +513,9 @@ func (g *Gen) otherAttr() string {
 
 // htmlFragment returns one HTML fragment.
 func (g *Gen) htmlFragment() string {
-	switch k := g.R.Intn(34); k {
+	switch k := g.R.Intn(38); k {
+	case 34, 35, 36, 37:
+		return g.rawSequence()
 	case 0, 1:
 		return "<p>Some text " + g.hole(CText, "html.text") + " and more.</p>"
 	case 2:
@@ -631,7 +634,14 @@ func (g *Gen) htmlFragment() string {
 	case 23, 24, 25: // style element
 		typ := g.pick("", "", ` type="text/css"`, ` type=" TEXT/CSS "`, ` media="screen"`)
 		end := g.pick("</style>", "</style>", "</STYLE>", "</style >")
-		return "<style" + typ + ">\n" + g.CSS(1+g.R.Intn(4)) + end
+		body := g.CSS(1 + g.R.Intn(4))
+		if g.R.Intn(3) == 0 {
+			body = strings.TrimRight(body, "\n") + g.pick(" /* tail */", " /* tail ", "")
+			if strings.HasSuffix(body, "tail ") {
+				g.feature(FeatureOpenEnded)
+			}
+		}
+		return "<style" + typ + ">" + g.pick("\n", "\n", "", " ") + body + end
 	case 26: // style with a non-CSS type: its content is not CSS for a browser
 		return "<style type=\"text/x-less\">@c: " + g.hole(CText, "html.style.unknown-type") + ";</style>"
 	case 27:
@@ -668,7 +678,11 @@ func (g *Gen) scriptElement() string {
 		typ := g.pick("", "", ` type="text/javascript"`, ` type='text/javascript'`, ` type=text/javascript`, ` type="module"`, ` type=module`,
 			` type=""`, ` type=" text/javascript "`, ` type="TEXT/JavaScript"`, ` defer`, ` async type="module"`, ` nonce="n1" type="text/javascript"`)
 		open := g.pick("<script", "<script", "<SCRIPT")
-		return open + typ + ">\n" + g.JS(1+g.R.Intn(5)) + end
+		body := g.JS(1 + g.R.Intn(5))
+		if g.R.Intn(3) == 0 {
+			body = strings.TrimRight(body, "\n") + g.pick(" // tail", " // it's the \"end\"", " /* tail */", " //")
+		}
+		return open + typ + ">" + g.pick("\n", "\n", "", " ") + body + end
 	case k < 9:
 		return "<script type=\"application/ld+json\">" + g.JSON(0) + end
 	case k == 9:
@@ -699,6 +713,124 @@ func (g *Gen) scriptElement() string {
 	default:
 		return "<script>" + g.JS(1) + "</script><script>" + g.JS(1) + "</script>"
 	}
+}
+
+// FeatureOpenEnded marks documents in which a raw-text element deliberately ends
+// inside a comment, string, template or regular-expression literal: its content
+// does not tokenize cleanly even with benign values.
+const FeatureOpenEnded = "open-ended-raw-text"
+
+// openEndedElement returns a script, style or other raw-text element whose
+// content ends in one of the sub-states a lexer can be in (open line or block
+// comment, open string, open template or regular-expression literal, CSS
+// comment, string or url), or in no sub-state (control).
+func (g *Gen) openEndedElement() string {
+	endScript := g.pick("</script>", "</script>", "</SCRIPT>", "</script >")
+	endStyle := g.pick("</style>", "</style>", "</STYLE>", "</style >")
+	k := g.R.Intn(22)
+	pre := g.pick("", "", "\n", "@")
+	if pre == "@" {
+		pre = ""
+		if k <= 10 { // a hole before the dangling part of a JavaScript element
+			pre = "var a0 = " + g.hole(CJSExpr, "js.before-open-end") + "; "
+		}
+	}
+	broken := true
+	var out string
+	switch k {
+	case 0, 1:
+		out, broken = "<script>"+pre+"init(); // start"+endScript, false
+	case 2:
+		out, broken = "<script>"+pre+"init(); // it's \"quoted"+endScript, false
+	case 3:
+		out, broken = "<script type=\"module\">"+pre+"init(); //"+endScript, false
+	case 4:
+		out = "<script>" + pre + "init(); /* start" + endScript
+	case 5:
+		out = "<script>" + pre + "init(); /* it's \"x" + endScript
+	case 6:
+		out = "<script>" + pre + "var s = \"abc" + endScript
+	case 7:
+		out = "<script>" + pre + "var s = 'abc" + endScript
+	case 8:
+		out = "<script>" + pre + "var s = \"a\\" + endScript
+	case 9:
+		out = "<script>" + pre + "var t = `abc ${x} d" + endScript
+	case 10:
+		out = "<script>" + pre + "var r = /ab[c" + endScript
+	case 11:
+		out = "<script type=\"application/ld+json\">{\"a\": \"x" + endScript
+	case 12:
+		out, broken = "<script type=\"application/ld+json\">{\"a\": [1, \"x\"]}"+endScript, false
+	case 13:
+		out = "<style>p { top: 0 } /* c" + endStyle
+	case 14:
+		out = "<style>a::before { content: \"x" + endStyle
+	case 15:
+		out = "<style>a::before { content: 'x" + endStyle
+	case 16:
+		out = "<style>p { background: url(x" + endStyle
+	case 17:
+		out, broken = "<style>p { top: 0; color: "+g.hole(CCSSVal, "css.before-end")+" }"+endStyle, false
+	case 18:
+		out, broken = "<textarea>it's \"x</textarea>", false
+	case 19:
+		out, broken = "<title>a \"b 'c</title>", false
+	default:
+		if g.avoid(ScopeRawTextTagQuote) {
+			out, broken = "<xmp><a title=x></xmp>", false
+		} else {
+			g.feature(ScopeRawTextTagQuote)
+			tag := g.pick("textarea", "title", "xmp", "noscript")
+			out, broken = "<"+tag+"><a title="+g.pick("\"", "'")+"x</"+tag+">", false
+		}
+	}
+	if broken {
+		g.feature(FeatureOpenEnded)
+	}
+	return out
+}
+
+// firstLineElement returns an element whose holes sit on the first line right
+// after the start tag, in string and in code positions, or in attributes.
+func (g *Gen) firstLineElement() string {
+	switch g.R.Intn(12) {
+	case 0, 1:
+		return "<script>var s = \"" + g.hole(CJSStr, "js.first-line.string") + "\"; var c = " + g.hole(CJSExpr, "js.first-line.expr") + ";</script>"
+	case 2:
+		return "<script>var c = " + g.hole(CJSExpr, "js.first-line.expr") + "; var s = '" + g.hole(CJSStr, "js.first-line.string") + "';</script>"
+	case 3:
+		return "<script type=\"module\">f(\"" + g.hole(CJSStr, "js.first-line.string") + "\", " + g.hole(CJSExpr, "js.first-line.expr") + ");</script>"
+	case 4, 5:
+		return "<style>a::before { content: \"" + g.hole(CCSSStr, "css.first-line.string") + "\"; color: " + g.hole(CCSSVal, "css.first-line.value") + " }</style>"
+	case 6:
+		return "<style>p { width: " + g.hole(CCSSVal, "css.first-line.value") + "px; background: url('" + g.hole(CCSSStr, "css.first-line.string") + "') }</style>"
+	case 7:
+		return "<script type=\"application/ld+json\">{\"a\": \"" + g.hole(CJSONS, "json.first-line.string") + "\", \"b\": " + g.hole(CJSONV, "json.first-line.value") + "}</script>"
+	case 8:
+		return "<p title=" + g.hole(CUAttr, "html.attr.unquoted.after-rawtext") + " class=\"" + g.hole(CText, "html.attr.quoted.after-rawtext") + "\">" + g.hole(CText, "html.text.after-rawtext") + "</p>"
+	case 9:
+		return "<a href=" + g.hole(CUAttr, "html.urlattr.whole.unquoted.after-rawtext") + " title='" + g.hole(CText, "html.attr.quoted.after-rawtext") + "'>x</a>"
+	case 10:
+		return "<p>Say \"" + g.hole(CText, "html.text.after-rawtext") + "\" and '" + g.hole(CText, "html.text.after-rawtext") + "' now</p>"
+	default:
+		return "<div " + g.hole(CName, "html.tag.after-rawtext") + ">x</div><p>" + g.hole(CText, "html.text.after-rawtext") + "</p>"
+	}
+}
+
+// rawSequence returns several raw-text elements in a row: the earlier ones end in
+// a lexer sub-state, the later ones have their holes on the first line, so that
+// state leaking across an element boundary shows.
+func (g *Gen) rawSequence() string {
+	var b strings.Builder
+	for i, n := 0, 1+g.R.Intn(2); i < n; i++ {
+		b.WriteString(g.openEndedElement())
+		b.WriteString(g.pick("", "", "\n", " "))
+	}
+	for i, n := 0, 1+g.R.Intn(2); i < n; i++ {
+		b.WriteString(g.firstLineElement())
+	}
+	return b.String()
 }
 
 // HTML returns HTML markup with holes.
